@@ -81,7 +81,7 @@ def t_relay(v: VMF) -> None:
 
 def t_vars(v: VMF) -> None:
     e = v.create_ent('info_target', origin='$pos', targetname='$nm', parentname='x_$ab_y', angles='0 0 0')
-    e.add_out(Output('OnUser1', '$nm', 'Kill'))
+    e.add_out(Output('OnUser1', '$nm', 'Kill'), Output('OnUser2', '$a', 'Use'), Output('OnUser3', '$ab', 'Use'), Output('OnUser4', '$pos', 'Use'))
 
 
 def t_nested(v: VMF) -> None:
@@ -137,6 +137,8 @@ FIXUP_TABLES = {
     'none': [],
     'one': [('nm', 'named')],
     'prefix': [('a', 'AAA'), ('ab', 'BBB'), ('nm', 'n2'), ('pos', '4 5 6')],
+    # values that the name rules exempt (@global, !special) or that are blank, reached through a variable
+    'special': [('a', '@glob'), ('ab', '!activator'), ('nm', ''), ('pos', '0 0 0')],
 }
 
 
@@ -586,7 +588,7 @@ def run(ctx: core.Ctx) -> None:
     ctx.rule = (f'(E) every subset of 1..{k} of {len(names)} template features ({len(subsets)} templates: textured world brush, displacement, '
                 f'explicit point data, brush entity, point entity, pitch entities, relay with outputs, $variables, nested func_instance '
                 f'with fixups, hidden objects, overlay side lists, visgroups, direction keys) x {len(PLACEMENTS)} placements x 3 fixup styles x '
-                f'3 fixup tables (quick: full product for single features, placements + style/table sweep for pairs), each compared with '
+                f'{len(FIXUP_TABLES)} fixup tables (quick: full product for single features, placements + style/table sweep for pairs), each compared with '
                 f'the template transformed by an independent reference (planes, origins, orientation matrices, displacement vectors, '
                 f'texture-coordinate invariance, names, substituted variables) and template export unchanged; (B) BFS over histories of '
                 f'<= {res["depth_completed"]} collapses (10 operations) on two shared templates: templates export byte-identically in '
